@@ -1,6 +1,8 @@
 From Coq Require Import Extraction ExtrOcamlBasic.
-From BV Require Import lib.ExtractBase lib.Ints model.WalletSpend.
+From BV Require Import lib.ExtractBase lib.Ints model.WalletSpend model.FeeBump.
 Extraction "model.ml" extract_base get_fee dust_threshold effective_rate required_rate min_viable_change
   max_fee_without_change spendable sffo_shares total_reduction payouts
   ck_inputs_distinct ck_inputs_allowed ck_presets_used ck_conservation ck_change_pos ck_recipients
-  ck_sffo_amount ck_no_dust ck_change ck_sizes ck_rate ck_fee valid_funding.
+  ck_sffo_amount ck_no_dust ck_change ck_sizes ck_rate ck_fee valid_funding
+  precondition expected_refusal bump_split new_rate bump_request check_fee_rate o_fee as_result cp_candidates
+  ck_inputs_kept ck_pays_increment valid_bump.
